@@ -281,28 +281,34 @@ func c14Decimal(c *engine.Ctx, in []byte, args map[string]string) {
 		out := string(got[3:])
 		// "0.5" may also be spelled ".5"? the library writes the leading zero; accept only its own spelling rules
 		if out != want1 && out != want2 {
-			// beyond ~15 significant digits the float64 product f·10^dec is itself rounded: accept a well-formed
-			// decimal with at most dec decimals and no trailing zero that lies within half a unit of the last
-			// requested decimal plus that float64 rounding (8 ulp) of the argument
-			// Below 10^15 scaled units the only inexact step is the product f·10^dec itself: when it is not exactly
-			// representable the library may see a neighbouring float64 (one ulp either way) and round that; when it
-			// is exact (every true tie such as -2.5, 0.125·10^2) the result must be the half-away rounding.
+			// The only inexact step the library may take is the product f·10^dec itself (it must fit an int64): when it
+			// is not exactly representable the library may see a neighbouring float64 (one ulp either way) and round
+			// that half away from zero; when it is exact (every true tie such as -2.5 or 0.125·10^2, every integer
+			// below 2^63 at dec 0) the result must be the half-away rounding of the argument.
 			scale := new(big.Rat).SetInt(new(big.Int).Exp(big.NewInt(10), big.NewInt(int64(d)), nil))
 			prod := new(big.Rat).Mul(exact, scale)
-			if pf, isExact := prod.Float64(); !isExact && math.Abs(pf) < 1e15 {
+			pf, isExact := prod.Float64()
+			if math.Abs(pf) < 9.2e18 {
 				near := false
-				for _, q := range []float64{pf, math.Nextafter(pf, math.Inf(1)), math.Nextafter(pf, math.Inf(-1))} {
-					qr := new(big.Rat).SetFloat64(q)
-					if qr != nil && roundHalfAway(qr.Quo(qr, scale), d) == out {
-						near = true
+				if !isExact {
+					for _, q := range []float64{pf, math.Nextafter(pf, math.Inf(1)), math.Nextafter(pf, math.Inf(-1))} {
+						qr := new(big.Rat).SetFloat64(q)
+						if qr != nil && roundHalfAway(qr.Quo(qr, scale), d) == out {
+							near = true
+						}
 					}
 				}
 				if near {
 					c.Count("decimal-within-one-ulp-of-product", 1)
 					continue
 				}
+				c.Fail("AppendDecimal", fmt.Sprintf("%s want %q (round half away from zero of the shortest decimal form) or %q (of the exact binary value)", desc, want2, want1))
+				return
 			}
-			ok := math.Abs(f)*math.Pow10(d) >= 1e15 && regexp.MustCompile(`^-?[0-9]+(\.[0-9]*[1-9])?$`).MatchString(out)
+			// the scaled value does not fit an int64: the decimals that are dropped lie beyond the precision of a float64;
+			// accept a well-formed decimal with at most dec decimals and no trailing zero within half a unit of the last
+			// requested decimal plus 8 ulp of the argument
+			ok := regexp.MustCompile(`^-?[0-9]+(\.[0-9]*[1-9])?$`).MatchString(out)
 			if i := strings.IndexByte(out, '.'); ok && i >= 0 && len(out)-i-1 > d {
 				ok = false
 			}
@@ -485,6 +491,49 @@ func c14Work(c *engine.Ctx) {
 				}
 			}
 			c.Count("distinct_nontrivial", 1)
+			// the two float64 neighbours of m·10^e: full 53-bit mantissas right next to a decimal boundary
+			if c.Thorough() || (e >= -25 && e <= 25) || e%30 == 0 {
+				if f0, err := stdconv.ParseFloat(fmt.Sprintf("%de%d", m, e), 64); err == nil && !math.IsInf(f0, 0) && f0 != 0 {
+					for _, nb := range []float64{math.Nextafter(f0, math.Inf(1)), math.Nextafter(f0, 0)} {
+						if math.IsInf(nb, 0) || nb == 0 {
+							continue
+						}
+						for _, sign := range []string{"", "-"} {
+							lit := []byte(sign + stdconv.FormatFloat(nb, 'g', -1, 64))
+							for _, prec := range []int{-1, 0, 1, 2, 14, 15, 16, 17, 18} {
+								c.Exec(fsp, lit, map[string]string{"prec": stdconv.Itoa(prec)})
+								c.Count("exec", 1)
+							}
+							if e >= -20 && e <= 40 {
+								for dec := 0; dec <= 18; dec++ {
+									c.Exec(dsp, lit, map[string]string{"dec": stdconv.Itoa(dec)})
+									c.Count("exec", 1)
+								}
+							}
+						}
+						c.Count("neighbours", 1)
+					}
+				}
+			}
+		}
+	}
+	// integers and binary fractions around 2^48 … 2^63, where adding one half is no longer exact
+	for kk := 44; kk <= 63; kk++ {
+		p2 := math.Ldexp(1, kk)
+		for _, f0 := range []float64{p2 + 1, p2 - 1, p2 + 3, p2 - 3, (p2 + 1) / 2, (p2 - 1) / 2, (p2 + 3) / 4, (p2 - 1) / 4, (p2 + 1) / 8, (p2 - 3) / 16, (p2 + 5) / 1024, p2 / 10, (p2 + 1) / 10, p2 / 1000} {
+			k++
+			if !c.Mine(k) {
+				continue
+			}
+			for _, sign := range []string{"", "-"} {
+				lit := []byte(sign + stdconv.FormatFloat(f0, 'g', -1, 64))
+				for dec := 0; dec <= 18; dec++ {
+					c.Exec(dsp, lit, map[string]string{"dec": stdconv.Itoa(dec)})
+					c.Exec(fsp, lit, map[string]string{"prec": stdconv.Itoa(dec - 1)})
+					c.Count("exec", 2)
+				}
+			}
+			c.Count("binary_boundary", 1)
 		}
 	}
 	c.Sample("AppendFloat(219e-2 … 99e310, prec -1..18), AppendDecimal(m·10^e, dec 0..18), AppendNumber(±(10^k+d), ±(2^k+d))")
@@ -500,8 +549,8 @@ func c14Finish(c *engine.Ctx, cov map[string]interface{}) string {
 func init() {
 	register(&engine.Check{
 		ID: "C14", Level: "exploration",
-		Rule:        "parsers: all strings ≤7 over {+ - 0 1 5 9 . e E x} and single-edit neighbours of 80 boundary numerals (among them exponents at and beyond the int64 range) vs strconv.ParseInt/ParseUint/ParseFloat on the longest syntactic prefix; AppendInt/LenInt on {±(10^k+d), ±(2^k+d), 0, min, max}; AppendNumber→ParseNumber on that family × dec 0..18 × groupSize 0..6 × ordered pairs of distinct symbols of 1–4 UTF-8 bytes; AppendFloat on m·10^e (m≤99 quick / 999 thorough, e∈[-330,310], both signs) × prec −1..18: well-formed, right sign, within one unit of the requested last digit (big.Float); AppendDecimal on e∈[-20,40] ∪ {100, 308} × dec 0..18 vs big.Rat round-half-away with trailing zeros dropped; every formatter with a prefix in the destination at cap==len and with room",
-		Assumptions: []string{"AppendDecimal is accepted if it equals round-half-away of either the shortest decimal form of the float or its exact binary value"},
+		Rule:        "parsers: all strings ≤7 over {+ - 0 1 5 9 . e E x} and single-edit neighbours of 80 boundary numerals (among them exponents at and beyond the int64 range) vs strconv.ParseInt/ParseUint/ParseFloat on the longest syntactic prefix; AppendInt/LenInt on {±(10^k+d), ±(2^k+d), 0, min, max}; AppendNumber→ParseNumber on that family × dec 0..18 × groupSize 0..6 × ordered pairs of distinct symbols of 1–4 UTF-8 bytes; AppendFloat on m·10^e (m≤99 quick / 999 thorough, e∈[-330,310], both signs) × prec −1..18: well-formed, right sign, within one unit of the requested last digit (big.Float); AppendDecimal on e∈[-20,40] ∪ {100, 308} × dec 0..18 vs big.Rat round-half-away with trailing zeros dropped; both formatters also on the two float64 neighbours of each m·10^e and on integers and binary fractions around 2^44 … 2^63; every formatter with a prefix in the destination at cap==len and with room",
+		Assumptions: []string{"AppendDecimal is accepted if it equals round-half-away of either the shortest decimal form of the float or its exact binary value, or of a float64 within one ulp of the product f·10^dec when that product is not exact; when the product does not fit an int64 the dropped decimals may differ by 8 ulp of the argument"},
 		Setup:       c14Setup, Work: c14Work, Finish: c14Finish,
 	})
 }
